@@ -502,6 +502,8 @@ static void big(void)
 		if (shape_nontrivial())
 			vh_distinct(h);
 		VH_COUNT("big_shapes");
+		if (vh_want_sample() && (c == 1 || c % 50 == 7))
+			vh_sample("big shape case %lld: %d nodes, in/pre/post-order compared, restored, freed (first links: %.200s)", c, nnodes, shape_desc);
 	}
 }
 
